@@ -66,6 +66,20 @@ class CHelpersImpl:
                 self.buf = None
                 return f"err {type(e).__name__}"
             return f"ok | {self.bstate()}"
+        if op == "c.buf.reinit":
+            # __init__ again on the LIVE object (a rejected re-initialisation must leave it usable)
+            if b is None:
+                return "err NoBuffer"
+            kw = {}
+            if t[1] != "none":
+                kw["capacity"] = "x" if t[1] == "bad" else int(t[1])
+            if t[2] != "none":
+                kw["data"] = _unhex(t[2])
+            try:
+                b.__init__(**kw)
+            except Exception as e:
+                return f"err {type(e).__name__} | {self.bstate()}"
+            return f"ok | {self.bstate()}"
         if op.startswith("c.buf."):
             name = op[len("c.buf."):]
             if name in ("capacity", "data"):
@@ -90,6 +104,18 @@ class CHelpersImpl:
                 self.aead = None
                 self.aead_args = (t[1].encode(), _unhex(t[2]), _unhex(t[3]))
                 self.aead = self.C.AEAD(*self.aead_args)
+                return "ok"
+            if op == "c.hp.reinit":
+                if self.hp is None:
+                    return "err NoObject"
+                self.hp.__init__(t[1].encode(), _unhex(t[2]))
+                self.hp_args = (t[1].encode(), _unhex(t[2]))
+                return "ok"
+            if op == "c.aead.reinit":
+                if self.aead is None:
+                    return "err NoObject"
+                self.aead.__init__(t[1].encode(), _unhex(t[2]), _unhex(t[3]))
+                self.aead_args = (t[1].encode(), _unhex(t[2]), _unhex(t[3]))
                 return "ok"
             if op == "c.hp.remove":
                 if self.hp is None:
